@@ -560,7 +560,7 @@ def pipeline_strategy(kinds, safe=False, no_setlimit=False):
             "svc": st.one_of(st.just([0]), st.lists(st.sampled_from([0, 1, 1, 2, 3, 4]), min_size=1, max_size=5),
                              st.lists(st.sampled_from([0, 1, 1, 2, 3, 4]), min_size=1, max_size=5)),
             "setlim": st.lists(st.tuples(st.sampled_from([1, 2, 3, 5, 7]), st.integers(1, 4)), max_size=0 if (safe or no_setlimit) else 2),
-            "chain": st.booleans(), "discard": st.booleans(), "defpat": st.sampled_from([0, 0, 1, 2, 3]),
+            "chain": st.booleans(), "discard": st.booleans(), "tagw": st.booleans(), "defpat": st.sampled_from([0, 0, 1, 2, 3]),
             "arrivals": st.lists(arr, min_size=1, max_size=14 if big else 10),
             "spread": st.just(True) if safe else st.just(False),
         })
@@ -779,7 +779,7 @@ def pipeline_execute(obl, safe=False, no_setlimit=False):
                         rid = event.context["rid"]
                         recv(rid)
                         rj0 = self.stats.requests_rejected
-                        w = event.context.get("metadata", {}).get("weight", 1)
+                        w = event.context.get("metadata", {}).get("weight", 1) if conc == "weighted" else 1
 
                         def first():
                             if self.stats.requests_rejected > rj0:
@@ -882,6 +882,10 @@ def pipeline_execute(obl, safe=False, no_setlimit=False):
             ctx = {"rid": rid, "prio": int(a.get("prio", 0)) % 3, "dl": at + (pat_ + 1 if pat_ < 9 else 5000) * TICK}
             if conc == "weighted":
                 ctx["metadata"] = {"weight": 1 + (int(a.get("w", 1)) - 1) % limit}
+            elif kind == "server" and case.get("tagw"):
+                # requests still carry the weight tag of an upstream weighted stage; Fixed/Dynamic concurrency document the
+                # weight as ignored: every request occupies exactly one slot
+                ctx["metadata"] = {"weight": 1 + (int(a.get("w", 1)) - 1) % 3}
             if kind == "reneging":
                 ctx["created_at"] = Instant(at)
                 pat = int(a.get("pat", 9)) % 10
